@@ -6,6 +6,7 @@ import (
 	"bytes"
 	"encoding/json"
 	"fmt"
+	"io"
 	"sort"
 	"strings"
 	"sync"
@@ -24,7 +25,7 @@ type site struct {
 	v     *model.Variant
 	chain []*model.FieldInfo // FCont, FList, FOrdList, FUList fields from the root down
 	f     *model.FieldInfo   // FLeaf or FLeafList
-	class string           // type class used to balance the draw
+	class string             // type class used to balance the draw
 }
 
 func (s *site) String() string {
@@ -274,7 +275,9 @@ func decodeJSON(data []byte) (interface{}, error) {
 	if err := dec.Decode(&raw); err != nil {
 		return nil, err
 	}
-	if dec.More() {
+	// the document ends here: anything but white space after the first value (also a stray ] or }, which
+	// Decoder.More does not report) makes the input something other than one JSON text
+	if _, err := dec.Token(); err != io.EOF {
 		return nil, fmt.Errorf("trailing data")
 	}
 	return raw, nil
